@@ -44,6 +44,8 @@ Mutants (checks/mutants/C04/*.diff; each `VERIF_REPO=/tmp/comp-x bin/check C04 q
   compress-when-off.diff    compression map used although Compress = false -> every stage: compress/pointer-when-compress-off:owner|question|rdata:*
   pointer-non-suffix.diff   map entry records the offset of the NEXT label  -> replay family + TV: compress/not-transparent:* (a label is lost),
                             compress/compressed-unreadable
+  packbuffer-keeps-small-buffer.diff  caller buffer kept when it only holds the compressed form (seed C04-8) -> BUF: compress/packbuffer-error:types|zoo
+                            (types variant 3: the pointer replaces a 25-octet label at the very end of the message)
 Non-vacuity of MC_Compress (run by hand, each invariant must be violated): NoPointerEver, NoLimitCrossed, AlwaysImpl, NoDeviationDecodes.
 """
 import os, json
